@@ -21,6 +21,8 @@ from vk import core
 
 ALPHA = ["1", ".", "/", "\\", "~", "\x00"]
 TAILS = ["/../../x", "/../../../outside/x", "\\..\\..\\x"]
+LONG_FILL = ["A", "/", ".", "1", "~", "\\"]
+LONG_LENGTHS = [63, 64, 65, 254, 255, 256, 257, 258, 300, 1023, 1024, 4095, 4096, 4097]
 CT = "1.2.840.10008.5.1.4.1.1.2"
 
 
@@ -177,6 +179,13 @@ def run(ctx: core.Ctx) -> core.Result:
         for i in range(nh):
             cases.append((app, "hostile", i, "instance"))
             cases.append((app, "hostile", i, "class"))
+        # long values: a run of one filler character (lengths around 64, NAME_MAX and the powers of two
+        # up to PATH_MAX) followed by each traversal tail - sanitisers, counters and the kernel's own
+        # limits all change behaviour with length
+        for fill in LONG_FILL:
+            for n_ in LONG_LENGTHS:
+                for tail in [""] + TAILS + ["/../x", "../../x"]:
+                    cases.append((app, "str", fill * n_ + tail, "instance"))
         for s_ in strings[: 6 + 36]:
             cases.append((app, "str", s_, "class"))
     n = core.NPROC * 2
@@ -192,7 +201,7 @@ def run(ctx: core.Ctx) -> core.Result:
     cov = {
         "evaluations": tot,
         "distinct_nontrivial": wrote,
-        "rule": f"both apps x (all {len(strings)} strings of length <= {L} over {{'1','.','/','\\\\','~',NUL}} + {nh} hostile strings + every string of length <= 2 followed by each of 3 traversal tails) as SOP Instance UID, hostile strings and short strings as SOP Class UID; jail directory snapshotted before/after every call; non-trivial = the call wrote something",
+        "rule": f"both apps x (all {len(strings)} strings of length <= {L} over {{'1','.','/','\\\\','~',NUL}} + {nh} hostile strings + every string of length <= 2 followed by each of 3 traversal tails + runs of {len(LONG_FILL)} filler characters of {len(LONG_LENGTHS)} lengths from 63 to 4097 followed by each of 6 tails) as SOP Instance UID, hostile strings and short strings as SOP Class UID; jail directory snapshotted before/after every call; non-trivial = the call wrote something",
         "exhaustive": True,
         "samples": [{"app": "qrscp", "uid": "../x"}, {"app": "storescp", "uid": "/.."}, {"app": "qrscp", "uid": "1/1"}],
     }
